@@ -258,6 +258,8 @@ def modfunc(ex, state, mod, name, args, kw, line):
         return ex.binop(ast.Mod(), args[0], args[1], state, line)
     if name == 'minimum' or name == 'amin' and len(args) == 2:
         a, b = args
+        if isinstance(a, SNum) or isinstance(b, SNum):
+            return SNum('min')
         if isinstance(b, SMaxRank) or isinstance(a, SMaxRank):
             mr, o = (b, a) if isinstance(b, SMaxRank) else (a, b)
             return z3.If(mr.is_inf, zi(o), z3.If(zi(o) < mr.val, zi(o), mr.val))
